@@ -82,6 +82,14 @@ CLAIMED = {
         "(hide / remove legs, wrist correction, holistic reduction) are checked on OpenPose and Holistic-shaped headers on the implementation (only the named points change) — partial: helpers are not modelled in Lean.",
    technique="Lean 4 proof (list/index reasoning over the header transcription) + differential correspondence and name-level oracle",
    design="§5 C11"),
+ "C14": dict(
+   text="Theorems (Props/C14.lean), the model's linear interpolation instantiated with an arbitrary linearly ordered field: the resampled clip has floor(F * new_fps / fps) frames at the new rate (interp_frames_fps) whose instants run from 0 to 1 "
+        "(linspace_ends); a track is missing at every new instant outside [first observation, last observation] (track_zero_outside_window, before_window); inside, the value equals the observation at an observed instant "
+        "(linear_identity_at_observations), lies between the two neighbouring observations (linear_within_neighbours) and reproduces an affine track exactly (linear_affine_exact). Partial: float rounding and scipy's spline kinds "
+        "(quadratic, cubic) are outside the theorems; for those the implementation is checked against the clauses that do not depend on the kind (frame count, rate, support window, identity at the same rate, affine exactness up to 1e-6). "
+        "Interpolation is run on NumPy poses with dyadic data and per-point observation windows, and the linear kind compared with the model at 1e-9.",
+   technique="Lean 4 proof over an ordered field (Mathlib linarith / field_simp on the model's lerp) + differential correspondence and clause oracle on the implementation",
+   design="§5 C14"),
  "C15": dict(
    text="Theorems (Props/C15.lean), the executable model instantiated with an arbitrary linearly ordered field: the box sides computed by the model's min / max folds are attained by observed values, contain every observed value and are "
         "contained in every box that does, and the box is missing exactly when nothing is observed (bbox_tight); translating by the minimum puts the smallest observed coordinate at exactly 0 and keeps the extent (focus_min_zero); flip negates "
